@@ -146,6 +146,33 @@ def check_write(ctx, F, b, who):
     return ctx.ok('R4', role, b.defpath, '%d step paths (mask p -> p+1, bit stored at p+1, no flush) and %d fresh-word paths (mask -> 0, word = bit, flush iff the old word held bits)' % (seen['step'], seen['fresh']), key=key)
 
 
+def check_empty_read_untouched(ctx, F, b, who):
+    """A read that finds nothing (`Ok(None)`: the coder is empty / the source has run out) leaves the coder as it was: no field
+    of the bit coder is assigned on that exit.  Otherwise an empty coder turns into one that claims to hold bits (a mask that
+    already points into a word that never arrived)."""
+    key = 'R1/empty-read-untouched/' + who
+    role = 'read_bit leaves the coder untouched when it returns no bit'
+    ev, paths = rules.evaluate(b)
+    n = 0
+    bad = None
+    for r in paths or []:
+        if r.end != 'return' or r.ret is None:
+            continue
+        sh = rules.ret_shape(r.ret)
+        none_exit = (r.ret[0] == 'agg' and r.ret[1][-1] == 'Ok' and r.ret[2] and isinstance(r.ret[2][0], tuple) and r.ret[2][0][0] == 'agg' and r.ret[2][0][1][-1] == 'None') or sh[0] == 'Err'
+        if not none_exit:
+            continue
+        n += 1
+        ws = [e for e in r.events if e['kind'] == 'write' and e['path'][:2] == (1, 'deref') and e['path'][2:3] != (('f', 'backend'),)]
+        if ws:
+            bad = 'on an exit that returns no bit, field %s has been assigned: an empty coder is left with a mask that points into a word it never received, so is_empty() turns false, len() reports a full word and later writes flush a spurious zero word' % sym.path_str(ws[0]['path'])
+    if bad:
+        return ctx.bad('R1', role, b.defpath, bad, key=key, loc=rules.loc(b))
+    if n == 0:
+        return ctx.unresolved('R1', role, b.defpath, 'no exit without a bit found', key=key)
+    ctx.ok('R1', role, b.defpath, '%d exit(s) without a bit, none after an assignment to the coder' % n, key=key)
+
+
 def check_read(ctx, F, b, who, mask_field, step, fresh_test, fresh_post):
     """P2 / P3: step = -1 (stack) or +1 (queue); fresh_* = (bits coefficient, const) of the position tested / left after a refill."""
     key = 'R4/position/read/' + who
@@ -474,6 +501,8 @@ def run(ctx):
         check_write_clones(ctx, F, wq, ws)
         check_read(ctx, F, rs, 'stack', 'mask_last_written', -1, (1, -1), (1, -2))
         check_read(ctx, F, rq, 'queue', 'mask_next_to_read', +1, (0, 0), (0, 1))
+        check_empty_read_untouched(ctx, F, rs, 'stack')
+        check_empty_read_untouched(ctx, F, rq, 'queue')
     check_len(ctx, F)
     check_marker(ctx, F)
     check_queue_exhaustion(ctx, F)
